@@ -140,6 +140,7 @@ def recsOf : List Seg → List Rec
   | Seg.batch rs :: rest => rs ++ recsOf rest
   | Seg.batchNoDump rs :: rest => rs ++ recsOf rest
   | Seg.restart :: rest => recsOf rest
+  | Seg.treeReset :: rest => recsOf rest
 
 /-- Is the state file up to date (= the dump of the in-memory aggregation) after these segments, given that
     it was (`f`) before?  A successful non-empty `Run` makes it so, a `Run` whose dump failed makes it stale. -/
@@ -148,6 +149,7 @@ def freshAfter : Bool → List Seg → Bool
   | f, Seg.batch rs :: rest => freshAfter (f || !rs.isEmpty) rest
   | f, Seg.batchNoDump rs :: rest => freshAfter (f && rs.isEmpty) rest
   | _, Seg.restart :: rest => freshAfter true rest
+  | f, Seg.treeReset :: rest => freshAfter f rest
 
 /-- Every restart finds an up-to-date file.  (A process that dies while records exist only in memory loses
     them whatever the code does; the property is about what the code can guarantee.) -/
@@ -156,6 +158,7 @@ def RestartsFresh : Bool → List Seg → Prop
   | f, Seg.batch rs :: rest => RestartsFresh (f || !rs.isEmpty) rest
   | f, Seg.batchNoDump rs :: rest => RestartsFresh (f && rs.isEmpty) rest
   | f, Seg.restart :: rest => f = true ∧ RestartsFresh true rest
+  | f, Seg.treeReset :: rest => RestartsFresh f rest
 
 /-- the same run with every flush succeeding -/
 def clearFaults : List Seg → List Seg
@@ -166,6 +169,7 @@ def clearFaults : List Seg → List Seg
 def noRestart : List Seg → Bool
   | [] => true
   | Seg.restart :: _ => false
+  | Seg.treeReset :: _ => false
   | _ :: rest => noRestart rest
 
 /-- a batch with the outcome of its flush (`true` = the dump fails) -/
